@@ -58,7 +58,8 @@ CreateAddr(a, n) == "c_" \o a \o "_" \o ToString(n)
 
 -----------------------------------------------------------------------------
 (* Cell programs: an op list interpreted by the Cell contract (asm.rs).     *)
-(* The state threaded through is [cells, nonce, code, logs].                *)
+(* The state threaded through is [cells, nonce, code, logs, bn]; bn is the   *)
+(* block number the code observes (the height being built).                 *)
 
 RECURSIVE ExecOps(_, _, _)
 ExecOps(self, ops, st) ==
@@ -81,6 +82,8 @@ ExecOps(self, ops, st) ==
          [] o.op = "sub" ->
               LET r == ExecOps(self, o.ops, st)
               IN  ExecOps(self, rest, IF r.ok THEN r.st ELSE st)
+         [] o.op = "number" ->
+              ExecOps(self, rest, [st EXCEPT !.cells = Put(@, <<self, o.s>>, st.bn)])
          [] o.op = "burn" -> ExecOps(self, rest, st)
          [] o.op = "ret" -> [ok |-> TRUE, st |-> st]
          [] o.op = "selfdestruct" -> [ok |-> TRUE, st |-> st]
@@ -119,7 +122,7 @@ ExecCreate(w, from, ckind) ==
 
 ExecCellCall(w, from, to, ops) ==
   LET w1 == BumpNonce(w, from)
-      r == ExecOps(to, ops, [cells |-> w1.cells, nonce |-> w1.nonce, code |-> w1.code, logs |-> <<>>])
+      r == ExecOps(to, ops, [cells |-> w1.cells, nonce |-> w1.nonce, code |-> w1.code, logs |-> <<>>, bn |-> NextH])
   IN  IF r.ok
       THEN [valid |-> TRUE, status |-> 1, logs |-> r.st.logs, created |-> NULL,
             world |-> [w1 EXCEPT !.cells = r.st.cells, !.nonce = r.st.nonce, !.code = r.st.code]]
@@ -222,7 +225,7 @@ CallOut(w, tx) ==
   ELSE IF tx.kind = "create" THEN (IF tx.ckind = "bad" THEN "empty" ELSE "code:" \o tx.ckind)
   ELSE IF Code(w, tx.to) = "cell"
   THEN LET w1 == BumpNonce(w, tx.from)
-           st == [cells |-> w1.cells, nonce |-> w1.nonce, code |-> w1.code, logs |-> <<>>]
+           st == [cells |-> w1.cells, nonce |-> w1.nonce, code |-> w1.code, logs |-> <<>>, bn |-> NextH]
            r == ExecOps(tx.to, tx.ops, st)
            v == RetOf(tx.to, tx.ops, st)
        IN  IF r.ok /\ v # -1 THEN "w:" \o ToString(v) ELSE "empty"
@@ -259,7 +262,7 @@ ProtoOk(idx, hash, ts) ==
 TxRec(id, tx, insc, nonce, out) ==
   [id |-> id, from |-> tx.from, to |-> IF tx.kind = "create" THEN NULL ELSE tx.to, nonce |-> nonce,
    insc |-> insc, status |-> out.status, logs |-> out.logs, created |-> out.created,
-   valid |-> out.valid]
+   valid |-> out.valid, src |-> tx]
 
 ChainIds == UNION {{chain[i].txs[j].id : j \in 1..Len(chain[i].txs)} : i \in 1..Len(chain)}
 CurIds   == {cur.txs[j].id : j \in 1..Len(cur.txs)}
@@ -415,7 +418,7 @@ InitialiseOk(id, hash, ts, height, logs) ==
          w1 == [world EXCEPT !.nonce = Put(Put(@, "idx", Nonce(world, "idx") + 1), "ctrl", 1),
                              !.code = Put(@, "ctrl", "ctrl")]
          rec == [id |-> id, from |-> "idx", to |-> NULL, nonce |-> Nonce(world, "idx"),
-                 insc |-> "BRC20_CONTROLLER_INIT", status |-> 1, logs |-> logs, created |-> "ctrl", valid |-> TRUE]
+                 insc |-> "BRC20_CONTROLLER_INIT", status |-> 1, logs |-> logs, created |-> "ctrl", valid |-> TRUE, src |-> CtrlTx]
          p1 == Sweep(pool, height)
      IN  /\ Nonce(world, "idx") = 0          \* the fixed controller address is the first creation of the indexer
          /\ world' = w1
